@@ -34,6 +34,7 @@ type RespSpec struct {
 	FailBody bool     `json:"fail_body,omitempty"`
 	FailAt   int      `json:"fail_at,omitempty"`
 	Proto    string   `json:"proto,omitempty"`
+	Chunked  bool     `json:"chunked,omitempty"` // body of unknown length
 }
 
 func relTime(base time.Time, spec string) (string, bool) {
@@ -54,7 +55,7 @@ func relTime(base time.Time, spec string) (string, bool) {
 // Render builds the sim.Reply for a spec; now is the origin's clock reading.
 func Render(rs *RespSpec, now time.Time, serial string) *sim.Reply {
 	rep := &sim.Reply{Status: rs.Status, Header: http.Header{}, BodySize: rs.BodySize, NoBody: rs.NoBody,
-		Delay: time.Duration(rs.DelayS * float64(time.Second)), Hang: rs.Hang, FailBody: rs.FailBody, FailAt: rs.FailAt, Proto: rs.Proto}
+		Delay: time.Duration(rs.DelayS * float64(time.Second)), Hang: rs.Hang, FailBody: rs.FailBody, FailAt: rs.FailAt, Proto: rs.Proto, Chunked: rs.Chunked}
 	if rs.Err {
 		rep.Err = sim.ErrOrigin
 		return rep
